@@ -117,6 +117,43 @@ def binding_demo(ctx, evs):
         raise Inconclusive('binding demo failed for TraceJqTree: %s' % dict(rej))
 
 
+BIGCFG = 'SPECIFICATION TSpec\nPOSTCONDITION Consumed\nCHECK_DEADLOCK FALSE\n'
+
+
+def big_values(ctx):
+    """C05 at 32..70 KiB: one raw field off the byte grid through every output path, judged byte for byte by TraceBigValue.tla"""
+    n = 24 if ctx.tier == 'thorough' else 6
+    bp = os.path.join(ctx.build, 'jq_ev_bigvalue.ndjson')
+    ctx.run([ctx.go_build('jqtree'), 'bigvalue', str(n), bp], check=True, timeout=900)
+    evs = vlib.read_ndjson(bp)
+    if len(evs) != n:
+        raise Inconclusive('bigvalue: %d of %d events' % (len(evs), n))
+    rej, _, _ = ctx.tv('TraceBigValue', 'tbv.cfg', bp, name='tv_bigvalue', cfg_text=BIGCFG, heap='3g', timeout=1500)
+    ctx.cov['traces_validated_against_impl'] += len(evs)
+    ctx.cov['evaluations'] += sum(len(e['raw']) for e in evs)
+    ctx.cov['distinct_nontrivial'] += len(evs)
+    ctx.cov['jq_big_values'] = dict(values=len(evs), bytes_judged=sum(len(e['raw']) + len(e['hex']) for e in evs), sizes_bits=[e['n'] for e in evs][:8])
+    for l, sig in rej:
+        e = evs[l - 1]
+        ctx.finding(sig, e['what'] + (': ' + e['err'] if e['err'] else ''), dict(what=e['what'], pre=e['pre'], n=e['n'], seed=ctx.seed, index=l - 1))
+    # binding demo: one output byte changed / one hex byte changed / the reported start off by one
+    a = copy.deepcopy(evs[0]); a['raw'][len(a['raw']) // 2] ^= 0x10
+    b = copy.deepcopy(evs[1]); b['hex'][32768] ^= 1
+    c = copy.deepcopy(evs[2]); c['s'] += 1
+    dp = os.path.join(ctx.build, 'bigvalue_demo.ndjson')
+    vlib.write_ndjson(dp, [evs[0], a, b, c])
+    drej, _, _ = ctx.tv('TraceBigValue', 'tbv.cfg', dp, name='tv_bigvalue_demo', cfg_text=BIGCFG, heap='3g', count=False, timeout=900)
+    good = {l for l, _ in rej}
+    want = [] if 1 in good else [2]
+    want += [3] if 2 not in good else []
+    want += [4] if 3 not in good else []
+    got = sorted({l for l, _ in drej})
+    ok = all(w in got for w in want) and (1 in good or 1 not in got)
+    ctx.cov['binding_demo'].append(dict(spec='TraceBigValue', corrupted_lines=[2, 3, 4], rejected_lines=got, ok=ok))
+    if not ok:
+        raise Inconclusive('binding demo failed for TraceBigValue: rejected %s' % got)
+
+
 def run_for(ctx, pid):
     pref = {'C05': 'bits.', 'C12': 'path.'}[pid]
     evs = programs(ctx, rawout=(pid == 'C05'))
@@ -133,6 +170,7 @@ def run_for(ctx, pid):
         for e in sevs:
             e['hasprog'] = False
         ctx.cov['jq_sliced_binary_decodes'] = len(sevs)
+        big_values(ctx)
     if pid == 'C12':
         bp = os.path.join(ctx.build, 'jq_ev_bigarr.ndjson')
         ctx.run([ctx.go_build('jqtree'), 'bigarr', bp], check=True, timeout=600)
